@@ -75,11 +75,17 @@ class MultiGetReporter(webdav.Reporter):
         # TODO(jelmer): Verify that resource is an the right resource type
         requested = None
         hrefs = []
+        malformed = []
         for el in body:
             if el.tag in ("{DAV:}prop", "{DAV:}allprop", "{DAV:}propname"):
                 requested = el
             elif el.tag == "{DAV:}href":
-                hrefs.append(webdav.read_href_element(el))
+                try:
+                    hrefs.append(webdav.read_href_element(el))
+                except ValueError:
+                    # Not a URL reference (e.g. "//["): it addresses nothing
+                    if el.text not in malformed:
+                        malformed.append(el.text)
             else:
                 webdav.nonfatal_bad_request(
                     f"Unknown tag {el.tag} in report {self.name}", strict
@@ -89,6 +95,9 @@ class MultiGetReporter(webdav.Reporter):
             # and the WebDAV RFC says that no body implies {DAV}allprop
             # This isn't exactly an empty body, but close enough.
             requested = ET.Element("{DAV:}allprop")
+        for href in malformed:
+            if href not in hrefs:
+                yield webdav.Status(href, "404 Not Found", propstat=[])
         for href, resource in resources_by_hrefs(hrefs):
             if resource is None:
                 yield webdav.Status(href, "404 Not Found", propstat=[])
